@@ -7,7 +7,7 @@ PROP = "C05"
 
 
 def run(tier):
-    return exportchecks.run_property(PROP, ["samefile", "samefile_all", "nasty"], tier, extra_stage=threads.run,
+    return exportchecks.run_property(PROP, ["samefile", "samefile_all", "nasty", "imports"], tier, extra_stage=threads.run,
                                      extra_assumptions=["thread runs: a 60 ms pause inside the critical section is enough for a second thread to get in if the lock did not keep it out (probe); event order is a sequence number taken inside the hook callback"])
 
 
